@@ -1,4 +1,4 @@
-//@ props=C07,C08,C09,C18
+//@ props=C07,C08,C09,C12,C18
 //! Lemmas (all proved, nothing assumed) that connect the 4-lane row form of the BLAKE2b compression function used by
 //! src/blake2b/blake2b_simd.rs with RFC 7693 (spec_blake2b.rs): the working vector v[0..15] is held as four rows
 //! a = v[0..3], b = v[4..7], c = v[8..11], d = v[12..15]; a "column step" applies G to the four columns lane-wise,
